@@ -67,8 +67,12 @@ Definition b_put (f : bytes) (b : backend) (k v : bytes) : bytes * backend * bre
     (f', b2, match e with None => BOk | Some x => BErr x end)
   else (f, b1, BOk).
 
+Definition writing (b : backend) : bool := match st b with SWriting => true | _ => false end.
+
+(* get(): a buffered key is written out first -- inside a writing session only (elsewhere the write could only fail, and a
+   failing flush drops the item it fails on) *)
 Definition b_get (f : bytes) (b : backend) (k : bytes) : bytes * backend * bres :=
-  let '(f1, b1, e) := if existsb (fun p => beq k (fst p)) (queue b) then flush f b else (f, b, None) in
+  let '(f1, b1, e) := if writing b && existsb (fun p => beq k (fst p)) (queue b) then flush f b else (f, b, None) in
   match e with
   | Some x => (f1, b1, BErr x)
   | None =>
